@@ -33,7 +33,7 @@ var engineAssumptions = []string{
 var checks = []Check{
 	{
 		ID: "C20", Title: "connection and request statistics are conserved", Level: "model_checking",
-		LevelText:   "every history up to depth 4/5 of connects, disconnects, successful / unsupported / invalid / multi-key requests, MOVED and ASK redirections, node down/up, backend resets, connection-limit rejections, host removal, ending either with every client closed or with Stop while connections are open, on the real Redis and TCP processors with their real listeners; counters read through the stats objects as deltas at every quiescent point; the free-running race pass of the redis and TCP processors (unmodified code, -race)",
+		LevelText:   "every history up to depth 4/5 of connects, disconnects, successful / unsupported / invalid / multi-key requests, MOVED and ASK redirections, node down/up, backend resets, connection-limit rejections, host removal, ending either with every client closed or with Stop while connections are open, on the real Redis and TCP processors with their real listeners; counters read through the stats objects as deltas at every quiescent point; the free-running race pass of the redis and TCP processors (unmodified code, -race); Stop racing arriving requests (P1 F1 / P2 F1); a client that goes away with its request in flight",
 		Technique:   "exhaustive enumeration of traffic/fault histories on the real processors under a controlled scheduler",
 		Assumptions: append([]string{"counters are process-wide; each execution compares against a snapshot taken at its own start", "default schedule per operation"}, engineAssumptions...),
 		Jobs: []Job{
@@ -45,7 +45,7 @@ var checks = []Check{
 	},
 	{
 		ID: "C08", Title: "running services converge to the configured services and endpoints", Level: "model_checking",
-		LevelText:   "explicit-state BFS (canonical-state de-duplication over store table + running processors + host sets) over every history up to depth 5/6 of dependency add/remove, valid/invalid configuration updates and endpoint updates (every added/removed subset combination of two addresses, including an address in both lists and removals before additions) for two services, fed through the real configuration store into the real controller with recording processors; controller draining after every update or only at the end; with and without a bootstrap static service; plus all schedules within bounds of the updater racing the controller loop; histories include an address re-announced with the other endpoint type; a controller starting 32-34 order-sensitive events late; the real discovery client feeding the real store from a scripted discovery service; the free-running race pass of store + controller",
+		LevelText:   "explicit-state BFS (canonical-state de-duplication over store table + running processors + host sets) over every history up to depth 5/6 of dependency add/remove, valid/invalid configuration updates and endpoint updates (every added/removed subset combination of two addresses, including an address in both lists and removals before additions) for two services, fed through the real configuration store into the real controller with recording processors; controller draining after every update or only at the end; with and without a bootstrap static service; plus all schedules within bounds of the updater racing the controller loop; histories include an address re-announced with the other endpoint type; a controller starting 32-34 order-sensitive events late; the real discovery client feeding the real store from a scripted discovery service; the free-running race pass of store + controller; removals that report the endpoint as DOWN",
 		Technique:   "explicit-state BFS over operation histories of the real store+controller under a controlled scheduler + preemption-bounded schedule exploration",
 		Assumptions: append([]string{"recording processors (each owns a real host.Set) stand in for the real TCP/Redis processors", "the store's handlers are driven through injected wrappers instead of a live gRPC stream"}, engineAssumptions...),
 		Jobs: []Job{
@@ -70,7 +70,7 @@ var checks = []Check{
 	},
 	{
 		ID: "C06", Title: "TCP: connections go only to current healthy hosts, per the balancing policy", Level: "model_checking",
-		LevelText:   "all schedules (P<=3/4, delays unbounded) of 2-3 threads picking n*k times from 1-3 hosts through the real round-robin balancer; every random outcome and every connection-count assignment for random and least-connection; every history up to depth 3/4 of add / remove (fresh host objects, as the controller builds them) / replace / health marks / connect / disconnect on the real TCP processor under the three policies with every random outcome; a connection arrival racing a membership or health change under all schedules within bounds; late health results for a stale host object, removals announced with the other type, replacement by fresh objects with the same addresses; a relayed connection to a usable member must stay open; arrival racing a replace whose list starts with a backup",
+		LevelText:   "all schedules (P<=3/4, delays unbounded) of 2-3 threads picking n*k times from 1-3 hosts through the real round-robin balancer; every random outcome and every connection-count assignment for random and least-connection; every history up to depth 3/4 of add / remove (fresh host objects, as the controller builds them) / replace / health marks / connect / disconnect on the real TCP processor under the three policies with every random outcome; a connection arrival racing a membership or health change under all schedules within bounds; late health results for a stale host object, removals announced with the other type, replacement by fresh objects with the same addresses; a relayed connection to a usable member must stay open; arrival racing a replace whose list starts with a backup; a configuration update that keeps the policy (rotation must continue); a member announced again with the other type",
 		Technique:   "preemption-bounded schedule exploration + exhaustive history enumeration on the real TCP processor under a controlled scheduler",
 		Assumptions: engineAssumptions,
 		Jobs: []Job{
@@ -111,7 +111,7 @@ var checks = []Check{
 	},
 	{
 		ID: "C11", Title: "no byte sequence from a client or a backend can crash or wedge the proxy", Level: "exploration",
-		LevelText:   "bounded-exhaustive input enumeration through the real parsers and handlers: every byte string over a 12-symbol RESP alphabet up to length 6/7 through decoder + dispatch, every supported command x argument shapes, every length-field boundary x truncation, nesting depths up to 8e6 and nested maximum-length arrays in isolated child processes (fatal errors and memory are observed from outside), every MOVED/ASK/CLUSTERDOWN text shape through the full stack, every CLUSTER NODES text of <= 2 lines from field alphabets under both map orders, every SCAN reply shape, and each crash family end to end with a second well-behaved connection; runs of up to 4e6 repetitions of short units under a 64 MiB stack limit; boundary slot fields through the real refresh of a started proxy; every prefix of the compression header as a backend value",
+		LevelText:   "bounded-exhaustive input enumeration through the real parsers and handlers: every byte string over a 12-symbol RESP alphabet up to length 6/7 through decoder + dispatch, every supported command x argument shapes, every length-field boundary x truncation, nesting depths up to 8e6 and nested maximum-length arrays in isolated child processes (fatal errors and memory are observed from outside), every MOVED/ASK/CLUSTERDOWN text shape through the full stack, every CLUSTER NODES text of <= 2 lines from field alphabets under both map orders, every SCAN reply shape, and each crash family end to end with a second well-behaved connection; runs of up to 4e6 repetitions of short units under a 64 MiB stack limit; boundary slot fields through the real refresh of a started proxy; every prefix of the compression header as a backend value; keys made of braces and NUL in single-key, multi-key and script commands",
 		Technique:   "bounded-exhaustive input enumeration on the real code (process-isolated for fatal inputs) + schedule exploration of the end-to-end cases",
 		Rule:        "distinct inputs (byte strings, structured requests, backend reply texts/shapes), each evaluated once per enumerated environment (map order)",
 		Assumptions: append([]string{"memory is measured as runtime.MemStats.Sys inside the isolated child", "alphabet chosen from the RESP type bytes, digits, CR, LF, a letter and space"}, engineAssumptions...),
@@ -139,7 +139,7 @@ var checks = []Check{
 	},
 	{
 		ID: "C07", Title: "the proxy heals after connection loss and topology change", Level: "model_checking",
-		LevelText:   "every history up to depth 5/6 (plus selected deeper convergence histories) over connection resets, node down/up, slot-group moves (including the last group of a master) and refresh rounds on the real proxy stack; requests issued at quiescence and compared with a single-server reference; redirections must stop within two refresh rounds after the first redirection; the same histories one level less deep with nodes known by host name (connection address differs from the backend's key); schedule exploration of simultaneous connection losses and of a layout change + redirection while a refresh answered from the old layout is in flight; a request redirected while the upstream is stopped / its hosts replaced",
+		LevelText:   "every history up to depth 5/6 (plus selected deeper convergence histories) over connection resets, node down/up, slot-group moves (including the last group of a master) and refresh rounds on the real proxy stack; requests issued at quiescence and compared with a single-server reference; redirections must stop within two refresh rounds after the first redirection; the same histories one level less deep with nodes known by host name (connection address differs from the backend's key); schedule exploration of simultaneous connection losses and of a layout change + redirection while a refresh answered from the old layout is in flight; a request redirected while the upstream is stopped / its hosts replaced; a restarting node (next connect accepted-and-reset, refused or slow) with requests meanwhile, P2 F2 inside that window",
 		Technique:   "exhaustive enumeration of fault/topology histories on the real proxy stack under a controlled scheduler with virtual time",
 		Assumptions: append([]string{"mini Redis Cluster (ownership changes are atomic cluster-wide; a restarted node keeps its data)", "default schedule per operation; the random seed-host choice rotates fairly"}, engineAssumptions...),
 		Jobs: []Job{
@@ -152,7 +152,7 @@ var checks = []Check{
 	},
 	{
 		ID: "C01", Title: "replies come back in request order, exactly one per request", Level: "model_checking",
-		LevelText:   "stateless exploration on the real proxy stack: every pipeline of length <= 2/3 over a 10-request alphabet x every cut of its bytes into two writes (default schedule); every pipeline of length <= 2 (+ selected of length 3) under all schedules within preemption/delay/select bounds; two concurrent connections; a narrow driver of one backend client with three senders deciding per-backend FIFO pairing; a 40-request pipeline exceeding the 32-entry session queue; every unsupported command name over {CR, LF, x} up to length 5 inside a pipeline; oracle: the received bytes parse with an independent codec into exactly one reply per request, reply k being the single-server answer to request k; the first pipeline after start; the backend-client driver of C02 (a request lost with its backend connection is a missing reply); free-running race pass of the whole redis stack",
+		LevelText:   "stateless exploration on the real proxy stack: every pipeline of length <= 2/3 over a 10-request alphabet x every cut of its bytes into two writes (default schedule); every pipeline of length <= 2 (+ selected of length 3) under all schedules within preemption/delay/select bounds; two concurrent connections; a narrow driver of one backend client with three senders deciding per-backend FIFO pairing; a 40-request pipeline exceeding the 32-entry session queue; every unsupported command name over {CR, LF, x} up to length 5 inside a pipeline; oracle: the received bytes parse with an independent codec into exactly one reply per request, reply k being the single-server answer to request k; the first pipeline after start; the backend-client driver of C02 (a request lost with its backend connection is a missing reply); free-running race pass of the whole redis stack; one node answering some milliseconds after the other (all schedules of that moment); every reply shape in the long pipeline",
 		Technique:   "preemption/delay-bounded stateless schedule exploration + exhaustive input/fragmentation enumeration on the real proxy stack",
 		Assumptions: engineAssumptions,
 		Jobs: []Job{
@@ -166,7 +166,7 @@ var checks = []Check{
 	},
 	{
 		ID: "C02", Title: "every request is answered exactly once, even when backends fail", Level: "model_checking",
-		LevelText:   "stateless exploration of all schedules within preemption/delay/select bounds of the real goroutines: (1) one backend client with 2 senders, optional Stop and five backend behaviours, (2) the real upstream with two nodes and a concurrent host removal / replacement / stop / node reset / node down, (3) the full proxy stack with a pipeline of two and a backend connection reset before any node-side read or write; oracle at quiescence: every request completed exactly once (double completion panics), no caller parked for ever; host removal/replacement/stop while the first request is being MOVED-redirected; Stop while the first backend connect is in progress; compression-filter rejections inside pipelines with backend faults; free-running race pass of the whole redis stack",
+		LevelText:   "stateless exploration of all schedules within preemption/delay/select bounds of the real goroutines: (1) one backend client with 2 senders, optional Stop and five backend behaviours, (2) the real upstream with two nodes and a concurrent host removal / replacement / stop / node reset / node down, (3) the full proxy stack with a pipeline of two and a backend connection reset before any node-side read or write; oracle at quiescence: every request completed exactly once (double completion panics), no caller parked for ever; host removal/replacement/stop while the first request is being MOVED-redirected; Stop while the first backend connect is in progress; compression-filter rejections inside pipelines with backend faults; free-running race pass of the whole redis stack; a request redirected to a target that refuses, resets after accepting or loses its connection; a backend that never reads (bounded buffers) and then half-closes",
 		Technique:   "preemption/delay-bounded stateless schedule exploration of the real goroutines under a controlled scheduler with fault injection at every network operation",
 		Assumptions: engineAssumptions,
 		Jobs: []Job{
@@ -183,7 +183,7 @@ var checks = []Check{
 	},
 	{
 		ID: "C13", Title: "transparent compression never changes what clients read back", Level: "model_checking",
-		LevelText:   "bounded-exhaustive enumeration through the real filter chain (4 thresholds x 8 write commands x every {0,x}-string up to length 10 plus patterned values around every threshold x 1-3 filter passes) with the snappy library itself as decompression oracle, and every history up to depth 4/5 of enable/disable, writes, reads, MOVED and ASK redirection on the real proxy stack against a reference map; a compression-settings switch racing a write and its read back (access points on the unsynchronised configuration pointer); removing the compression section; GETSET read-back; multi-value writes; saving sweep through the framing overhead",
+		LevelText:   "bounded-exhaustive enumeration through the real filter chain (4 thresholds x 8 write commands x every {0,x}-string up to length 10 plus patterned values around every threshold x 1-3 filter passes) with the snappy library itself as decompression oracle, and every history up to depth 4/5 of enable/disable, writes, reads, MOVED and ASK redirection on the real proxy stack against a reference map; a compression-settings switch racing a write and its read back (access points on the unsynchronised configuration pointer); removing the compression section; GETSET read-back; multi-value writes; saving sweep through the framing overhead; connections lost between enable/disable/remove and the read; every history enable, write, two events, read",
 		Technique:   "bounded-exhaustive input enumeration + exhaustive history enumeration on the real proxy stack under a controlled scheduler",
 		Assumptions: append([]string{"github.com/golang/snappy called directly as independent decompression oracle", "mini Redis Cluster stores values byte for byte"}, engineAssumptions...),
 		Jobs: []Job{
@@ -197,7 +197,7 @@ var checks = []Check{
 	},
 	{
 		ID: "C18", Title: "SCAN through the proxy visits every node once and terminates", Level: "model_checking",
-		LevelText:   "every combination of scripted per-node cursor chains (17 shapes per node, 1-3 nodes, cursors up to 2^48-1) iterated from cursor 0 through the real proxy; MATCH/COUNT/TYPE pass-through; every client-supplied cursor class; lossless cursor composition for all power-of-two boundaries; 0 nodes; a slot refresh between any two calls; one two-node iteration under all schedules within bounds (with scheduling points after releasing operations)",
+		LevelText:   "every combination of scripted per-node cursor chains (17 shapes per node, 1-3 nodes, cursors up to 2^48-1) iterated from cursor 0 through the real proxy; MATCH/COUNT/TYPE pass-through; every client-supplied cursor class; lossless cursor composition for all power-of-two boundaries; 0 nodes; a slot refresh between any two calls; one two-node iteration under all schedules within bounds (with scheduling points after releasing operations); iterations of 140/300 calls per node with nearly all batches empty",
 		Technique:   "exhaustive enumeration of node cursor histories on the real proxy stack under a controlled scheduler",
 		Assumptions: append([]string{"scripted SCAN answers of the mini cluster (well-formed replies; malformed ones belong to C11)"}, engineAssumptions...),
 		Jobs: []Job{{Pkg: "proc/redis", Scenarios: []string{"C18/scan"}, Shards: 16, QuickS: 90, ThoroughS: 240},
@@ -234,7 +234,7 @@ var checks = []Check{
 	},
 	{
 		ID: "C17", Title: "hot restart hand-over ordered, acknowledged, robust to bad frames", Level: "fault_enumeration",
-		LevelText:   "bounded-exhaustive enumeration over real unix sockets: every frame (12 types x payload 0..4100 x 13 declared lengths) through the real reader, full round trips through the real sender, every request sequence up to length 4/5 through the real Restarter with a scripted instance, and a first child dropped at every point (after k requests, mid-header, after a malformed frame) followed by a second child; every type byte 0-255 that is not a request; a child gone before its reply can be written",
+		LevelText:   "bounded-exhaustive enumeration over real unix sockets: every frame (12 types x payload 0..4100 x 13 declared lengths) through the real reader, full round trips through the real sender, every request sequence up to length 4/5 through the real Restarter with a scripted instance, and a first child dropped at every point (after k requests, mid-header, after a malformed frame) followed by a second child; every type byte 0-255 that is not a request; a child gone before its reply can be written; hand-over steps that take 1.3 s / 3.5 s",
 		Technique:   "bounded-exhaustive frame enumeration + fault-point enumeration over request histories on the real Restarter",
 		Rule:        "each evaluation is a distinct frame or a distinct (request sequence, drop point) history",
 		Assumptions: []string{"Go compiler and runtime", "kernel unix stream sockets (abstract namespace)", "the protocol is request/reply, so outcomes do not depend on goroutine timing; a 30 s read deadline only detects a hung hand-over"},
@@ -245,7 +245,7 @@ var checks = []Check{
 	},
 	{
 		ID: "C19", Title: "hot keys: counters exact for tracked keys and bounded", Level: "model_checking",
-		LevelText:   "explicit-state BFS over every Incr/Latch/Free sequence on the real Counter (capacity 0..3, depth 7/9) against a reference map plus structural invariants of the frequency list; DFS over every Collector history (depth 5/6) including every rand outcome of the logarithmic counter and a minute tick at any clock read; every insert sequence into the sorted report; every interleaving (P<=2/3) of writers, collect, reader and Free; capacities at the uint8 boundaries; three key-name shapes; a report that a reader is still walking stays duplicate free",
+		LevelText:   "explicit-state BFS over every Incr/Latch/Free sequence on the real Counter (capacity 0..3, depth 7/9) against a reference map plus structural invariants of the frequency list; DFS over every Collector history (depth 5/6) including every rand outcome of the logarithmic counter and a minute tick at any clock read; every insert sequence into the sorted report; every interleaving (P<=2/3) of writers, collect, reader and Free; capacities at the uint8 boundaries; three key-name shapes; a report that a reader is still walking stays duplicate free; evictStale on every report state of 1-4/5 keys with heats 1-7 stamped in the previous or current minute; two writers sharing one counter",
 		Technique:   "explicit-state search over operation histories on the real objects + preemption-bounded schedule exploration",
 		Assumptions: engineAssumptions,
 		Jobs: []Job{
@@ -259,7 +259,7 @@ var checks = []Check{
 	},
 	{
 		ID: "C10", Title: "RESP codec: decode and encode are inverse and independent of chunking", Level: "exploration",
-		LevelText:   "bounded-exhaustive enumeration: every value of the RESP grammar up to depth 2 over boundary texts/integers, every concatenation of small messages under all chunkings (<= 14 bytes) or every placement of <= 2/3 cuts, six reader buffer sizes, against an independent codec; integer fast paths against strconv on every string over a 7-letter alphabet up to length 7/8 and every i in [-70000,70000]; 300 repetitions of one null/empty/nested message followed by other values through one decoder",
+		LevelText:   "bounded-exhaustive enumeration: every value of the RESP grammar up to depth 2 over boundary texts/integers, every concatenation of small messages under all chunkings (<= 14 bytes) or every placement of <= 2/3 cuts, six reader buffer sizes, against an independent codec; integer fast paths against strconv on every string over a 7-letter alphabet up to length 7/8 and every i in [-70000,70000]; 300 repetitions of one null/empty/nested message followed by other values through one decoder; digit strings around every length threshold and the int64/uint64 limits",
 		Technique:   "bounded-exhaustive input and chunking enumeration against an independent reference codec",
 		Assumptions: []string{"Go compiler and runtime", "independent RESP codec /verif/sim/resp and strconv as references", "boundary sets chosen from the thresholds in the code (32, 512, 4096, 8192, 32768, 10 digits)"},
 		Jobs: []Job{{Pkg: "proc/redis", Scenarios: []string{"C10/codec"}, Shards: 16, QuickS: 120, ThoroughS: 240},
@@ -280,7 +280,7 @@ var checks = []Check{
 	},
 	{
 		ID: "C15", Title: "host set and health checking keep a consistent usable view", Level: "model_checking",
-		LevelText:   "explicit-state BFS over every operation sequence on the real host.Set up to depth 5/7 against a reference model in every state; every interleaving (preemption bound 2/3) of 2-3 threads of set operations plus a reader; every check-outcome sequence for all thresholds 0..3 through the real monitor step; batches carrying one address twice; for single batch calls a concurrent reader sees only views that exist before or after the call",
+		LevelText:   "explicit-state BFS over every operation sequence on the real host.Set up to depth 5/7 against a reference model in every state; every interleaving (preemption bound 2/3) of 2-3 threads of set operations plus a reader; every check-outcome sequence for all thresholds 0..3 through the real monitor step; batches carrying one address twice; for single batch calls a concurrent reader sees only views that exist before or after the call; hysteresis inside a running TCP service with refused client dials between the checks",
 		Technique:   "explicit-state BFS over operation histories + preemption-bounded schedule exploration of real goroutines",
 		Rule:        "states = canonical dumps of the real host.Set (three maps, cache, per-object flag/latch) reached by operation sequences; every state non-trivial (differs from all others); schedules = distinct choice sequences",
 		Assumptions: engineAssumptions,
